@@ -46,7 +46,7 @@ def make_pair(rng, *, shared_terminal_ids=False, mixed_ids=False, term_conflict=
         for i in range(rng.randint(0, 3)):
             nodes.append(Node(rng.choice(nls), f's{s}w{i}'))
         nt_edges = []
-        for i in range(rng.randint(0, 2)):
+        for i in range(rng.randint(0, 3)):
             k = rng.randrange(n_nt)
             att = []
             ok = True
@@ -64,10 +64,21 @@ def make_pair(rng, *, shared_terminal_ids=False, mixed_ids=False, term_conflict=
                 continue     # skeleton present in the other grammar only
             for r in range(rng.randint(1, 2)):
                 rhs = Graph()
-                for v in nodes:
+                # each rule inserts the shared nodes and nonterminal edges in its own order
+                for v in rng.sample(nodes, len(nodes)) if rng.random() < 0.6 else nodes:
                     rhs.add_node(v)
-                rhs.ext = ext
-                for i, (k, att, eid) in enumerate(nt_edges):
+                ext_r = ext
+                if ext and rng.random() < 0.15:
+                    # a different sequence of external nodes with the same labels (a permutation, or another node of
+                    # the same label, or a repetition): such rules are not conjoinable with the others
+                    ext_r = [rng.choice([v for v in nodes if v.label == x.label]) for x in ext]
+                    if rng.random() < 0.5 and len(ext) == 2 and ext[0].label == ext[1].label:
+                        ext_r = [ext[1], ext[0]]
+                rhs.ext = ext_r
+                order = list(enumerate(nt_edges))
+                if rng.random() < 0.6:
+                    rng.shuffle(order)
+                for i, (k, att, eid) in order:
                     if eid is None:
                         # an implicit id can only be shared by sharing the Edge object... which carries one label;
                         # so both grammars must use the same label there: only possible if the names agree
